@@ -99,6 +99,12 @@ def run(case, ctx, rng):
         ctx.eq('combink:list-unchanged', l, orig)
         got2 = call(lambda: [tuple(x) for x in P.combink(l, p, 0)])
         ctx.eq('combink:repeatable', got2, want, l=orig, p=p)
+        # generators are lazy: two requests made first, consumed one after the other; one request never started
+        def lazy():
+            g1 = P.combink(l, p, 0); g2 = P.combink(l, max(1, p - 1), 0); g3 = P.combink(l, p, 0)
+            return [tuple(x) for x in g1], [tuple(x) for x in g2]
+        ctx.eq('combink:lazy-generators', call(lazy), (want, list(itertools.combinations(orig, max(1, p - 1)))), l=orig, p=p)
+        ctx.eq('combink:repeatable', call(lambda: [tuple(x) for x in P.combink(l, p, 0)]), want, l=orig, p=p, after='an abandoned generator')
     elif k == 'nextperm-all':
         n, a = case['n'], case['alpha']
         ctx.cls(('nextperm-all', n, a))
